@@ -39,6 +39,11 @@ def _zero_size(v):
     a dimension normalise to (0,), which unify_chunks / normalize_chunks / key_to_slices mishandle
     (ZeroDivisionError while building, or IndexError/ValueError inside a task)."""
     f = v.get("facts", {})
+    if v.get("kind") == "block-shape-mismatch":
+        # C12: blocks of arrays with a zero-length dimension (chunks normalise to (0,)) are written with
+        # block shapes that do not match their (empty) region; no element is affected
+        w = f.get("write", {})
+        return 0 in tuple(w.get("shape", ())) and (0 in tuple(w.get("value", ())) or 0 in tuple(w.get("region", ())))
     if not f.get("has_zero_size"):
         return False
     if v.get("kind") == "bad-exception-type":
